@@ -222,7 +222,7 @@ def feature_corpus():
  # match on strings / bools / several literals
  "fn f(s: str) -> int { match s { \"a\" => 1, \"b\" | \"c\" => 2, _ => 0 } } fn main() { println(f(\"a\"), f(\"c\"), f(\"zz\")); let b = true; println(match b { true => \"t\", _ => \"f\" }); println(match 2.5 { 2.5 => 1, _ => 0 }); println(match [1, 2] { [1, 2] => \"l\", _ => \"n\" }); }",
  # float arithmetic and printing
- "fn main() { let a = 7.5; let b = 2.0; println(a + b, a - b, a * b, a / b, a ** b, -a, a < b, a == 7.5); println(1.0 / 4.0, 0.5 + 0.25, 100.0, 2.0 ** 3.0); println((7.9) as int, (-7.9) as int, 3 as float, \"4.5\".parse_float(), a.round(), a.trunc(), b.is_int(), a.to_string()); }",
+ "fn main() { let a = 7.5; let b = 2.0; println(a + b, a - b, a * b, a / b, a ** b, -a, a < b, a == 7.5); println(1.0 / 4.0, 0.5 + 0.25, 100.0, 2.0 ** 3.0); println((7.75) as int, (-7.75) as int, 3 as float, \"4.5\".parse_float(), a.round(), a.trunc(), b.is_int(), a.to_string()); }",
  # string ops
  "fn main() { let s = \"héllo wörld\"; println(s.len(), s.to_upper(), s.to_lower(), s.replace(\"l\", \"L\"), s.contains(\"wö\"), s.split(\" \"), s.starts_with(\"hé\"), s.substring(3), s.repeat(2)); println(\"abc\" != \"abd\", \"abc\" == \"abc\", \"a\" + \"b\" + 1.to_string()); for c in \"añb\" { print(c, \"|\"); } println(); }",
  # options
@@ -247,6 +247,82 @@ def feature_corpus():
  "fn main() { let x = 5; let y = if x > 3 { \"big\" } else if x > 1 { \"mid\" } else { \"small\" }; println(y); let z = { let x = 2; x * x }; println(x, z); }",
  # shifts, bit ops precedence
  "fn main() { println(1 << 3 | 1, 6 & 3 ^ 1, 2 ** 3 ** 2, -2 ** 2, 10 - 3 - 2, 100 / 10 / 5, 7 % 4 * 2, 1 + 2 < 4 == true, !true || true && false); }",
+    ] + modelled_members_and_casts()
+
+
+def modelled_members_and_casts():
+    """Programs for the features the core models (Hms/Core/Sem.lean, VM.lean) cover since the cast / member extension:
+    float `**` (integral and +-0.5 exponents: the paths of math.Pow that use IEEE operations only), float members,
+    printing of whole floats >= 1e6 and of -0, `as` between scalars / lists / objects / options, annotated `let` and
+    globals validated at run time (`Cast error at `path`: ...` caught and printed), string members (to_upper, to_lower,
+    replace, split, substring, repeat, parse_int / parse_bool / parse_float with their strconv error texts), list sort,
+    range / option / any-object members, indexing with a missing key. Kept outside the zones of the open findings:
+    an annotated let whose initialiser's static kind is neither `any` nor the annotated kind (M1: the interpreter
+    drops the variable), element assignment after `concat` (M2: shared element cells), `->` / `~>` (M3)."""
+    return [
+ # --- float ** (math.Pow): integral exponents, +-0.5, special values; compound assignment
+ 'fn main() { println(2.0 ** 10.0, 1.5 ** 2.0, 2.0 ** -1.0, 0.0 ** 0.0, 4.0 ** 0.5, 0.25 ** -0.5, (-2.0) ** 3.0, (-2.0) ** 2.0, 1.0 ** 1000.0, 10.0 ** 15.0, 0.5 ** 10.0, 2.0 ** -10.0); }',
+ 'fn main() { let x = 3.0; let y = 2.0; println(x ** y, y ** x, -x, -(x ** y), x ** 0.0, x ** 1.0, (x ** y) / y); let z = 1.5; z **= 2.0; println(z); println(2.0 ** 3.0 ** 2.0, 2.0 ** 52.0, 10.0 ** 6.0, 10.0 ** 5.0); }',
+ 'fn main() { let a = 2.0 ** 64.0; let b = 2.0 ** 1023.0; println(a > 1.0, b > a, 2.0 ** -1074.0 > 0.0, 2.0 ** -1075.0 == 0.0, 3.0 ** 40.0 > 3.0 ** 39.0, (-1.0) ** 7.0, (-1.0) ** 8.0, 7.0 ** -2.0 < 0.03125, 0.0 ** 3.0, 0.0 ** 2.0 == 0.0, (-0.0) ** 3.0, (-0.0) ** 2.0); }',
+ 'fn p(b: float, e: float) -> float { b ** e } fn main() { let s = 0.0; for i in 0..12 { s += p(2.0, i as float); } println(s, p(s, 2.0), p(1.5, 3.0), p(-1.5, 3.0), p(0.5, -3.0), p(16.0, 0.5), p(16.0, -0.5), p(100.0, 3.0)); }',
+ # --- float comparisons, unary minus, negative zero, printing of large whole floats (exponent form from 1e6 on)
+ 'fn main() { println(7.5 < 2.0, 7.5 <= 7.5, 7.5 > 2.0, 2.0 >= 7.5, 7.5 == 7.5, 7.5 != 2.0, -(7.5), -0.0, 0.0 * -1.0, [-0.0, 0.0], 0.0 == -0.0); }',
+ 'fn main() { println(999999.0, 1000000.0, 1500000.0, 123456789.0, 120000000.0, 4503599627370496.0, -1000000.0, 65535.5, 1024.0 * 1024.0, 1000000.0 / 4.0, 2000000.0 - 1.0); }',
+ # --- float members
+ 'fn main() { let f = 7.5; println(f.to_string(), f.round(), f.trunc(), f.is_int(), (2.0).is_int(), (-7.5).round(), (-7.5).trunc(), (2.5).round(), (-2.5).round(), (0.5).round(), (-0.25).round(), (-0.25).trunc()); println((1024.0).to_string() + "!", (0.125).to_string(), (-3.0).to_string(), (9007199254740991.0).trunc(), (65535.5).round(), (-0.0).is_int(), (-0.0).to_string()); }',
+ 'fn main() { let l = [1.5, -2.25, 1000000.0, 0.0]; let t = 0; for f in l { t += f.round() + f.trunc(); println(f.to_string().len(), f.is_int()); } println(t, l.join("|"), l.to_string()); }',
+ # --- casts between scalars (`as`)
+ 'fn main() { println(7.75 as int, (-7.75) as int, 3 as float, 0.0 as bool, 0.5 as bool, (-0.0) as bool, 1 as bool, 0 as bool, (-5) as bool, true as int, false as int, true as float, false as float, 9007199254740993 as float == 2.0 ** 53.0, (-9223372036854775807 - 1) as float == -(2.0 ** 63.0), 9223372036854775807 as float == 2.0 ** 63.0); }',
+ 'fn main() { println(5 as int, 2.5 as float, true as bool, "s" as str, (1..3) as range, none as ?int, (?3) as ?int, [1, 2] as [int], (9.75 as int) as float, ((1 as bool) as int) as bool, (2.0 ** 62.0) as int, (-(2.0 ** 63.0)) as int, 1000.0 as int); }',
+ 'fn main() { let i = 3; let f = i as float; let b = f as bool; let j = b as int; println(i, f, b, j, (i as float) / 2.0, ((i as float) / 2.0) as int, (i / 2) as float); let n = 0; for k in 0..5 { n += (k as float * 1.5) as int; } println(n); }',
+ # --- `as` on lists / objects / options: new containers, conversions element by element
+ 'fn main() { let l = [1, 2]; let m = l as [int]; m.push(3); println(l, m); let o = new { a: 1, b: [1] }; let p = o as { a: int, b: [int] }; p.a = 9; p.b.push(2); println(o, p); let q = (?5) as ?int; println(q, q == ?5); }',
+ 'fn main() { let o = new { a: 1, b: "x", c: [1, 2] }; let d = o as { ? }; d.set("a", "str"); println(o); println(d); let e = d as { ? }; e.set("z", 1); println(d.keys(), e.keys(), d == e); let c: [int] = d.get("c").unwrap(); c.push(3); println(c, o.c, d.get("c")); }',
+ # --- `v as T` of an `any` value: conversions allowed, failures are catchable exceptions with a position
+ 'fn c(v: any) { try { println((v as int) + 1); } catch e { println(e.message, e.line, e.column); }; } fn main() { c(1); c(2.5); c(true); c("s"); c([1]); c(none); c(?1); c(1..2); c(new { a: 1 }); c(new { ? }); }',
+ 'fn c(v: any) { try { println(v as float); } catch e { println(e.message); }; try { println(v as bool); } catch e { println(e.message); }; try { println(v as str); } catch e { println(e.message); }; } fn main() { c(1); c(0.0); c(true); c("s"); c(none); }',
+ 'fn c(v: any) { try { println(v as [float]); } catch e { println(e.message); }; try { println(v as ?bool); } catch e { println(e.message); }; try { println(v as [[int]]); } catch e { println(e.message); }; } fn main() { c([1, 2]); c([true]); c([1.5]); c(0); c(?1.5); c("x"); c(["a"]); c([[1.5], [2.5, 3.5]]); c([["b"]]); c(??0); }',
+ 'fn c(v: any) { try { let r = v as { a: float, b: ?[int] }; println(r.a, r.b); } catch e { println(e.message); }; } fn main() { c(new { a: 1, b: [1.5] }); c(new { a: true, b: ?[2] }); c(new { a: 1, b: ["x"] }); c(new { a: 1 }); c(new { a: 1, b: 2, z: 0 }); c(new { a: "s", b: "t" }); c(new { b: [1, 2], a: 0.5 }); }',
+ 'fn c(v: any) { try { let r = v as { ? }; r.set("n", 1); println(r); } catch e { println(e.message); }; try { println(v as range); } catch e { println(e.message); }; try { println(v as ?{ ? }); } catch e { println(e.message); }; } fn main() { let o = new { a: 1 }; c(o); println(o); let d = new { ? }; c(d); println(d); c(1); c(1..=3); c(none); }',
+ # --- annotated `let` with an `any` initialiser: validation without conversion
+ 'fn c(v: any) { try { let x: int = v; println("int", x); } catch e { println(e.message, e.line, e.column); }; } fn main() { c(1); c("s"); c(1.5); c(true); c(none); c(?1); c([1]); c(new { a: 1 }); c(new { ? }); c(1..2); }',
+ 'fn c(v: any) { try { let x: ?int = v; println("ok", x); } catch e { println(e.message); }; } fn main() { c(1); c("s"); c(1.5); c(none); c(?1); c(?"s"); c(??1); c([1]); }',
+ 'fn c(v: any) { try { let x: [int] = v; x.push(0); println("ok", x); } catch e { println(e.message); }; } fn main() { c([1, 2]); c(["s"]); c([2.5]); c(1); c([[1]]); let l = [5]; c(l); println(l); let e: [int] = []; c(e); println(e); }',
+ 'fn c(v: any) { try { let x: [[?int]] = v; println("ok", x); } catch e { println(e.message); }; } fn main() { c([[?1, none], [?2]]); c([[1], [2]]); c([[?1], [?2, ?3]]); c([[?"s"]]); c([[?2.5, ?3.5]]); c([1]); c([[[?1]]]); }',
+ 'fn c(v: any) { try { let x: { a: int, b: str } = v; x.a += 1; println("ok", x.a, x.b); } catch e { println(e.message); }; } fn main() { let o = new { a: 1, b: "s" }; c(o); println(o); c(new { a: 1 }); c(new { a: 1, b: "s", c: 2 }); c(new { a: "x", b: "s" }); c(new { b: 1, a: "x" }); c(new { b: 1, a: 2 }); }',
+ 'fn c(v: any) { try { let x: { l: [{ k: ?int }] } = v; println("ok", x); } catch e { println(e.message); }; } fn main() { c(new { l: [new { k: ?1 }, new { k: ?2 }] }); c(new { l: [new { k: ?"s" }] }); c(new { l: [new { z: 1 }] }); c(new { l: [new { k: 1 }] }); c(new { l: [new { k: ?1, j: 0 }] }); }',
+ 'fn c(v: any) { try { let x: { ? } = v; x.set("n", 1); println("ok", x); } catch e { println(e.message); }; } fn main() { let o = new { a: 1 }; c(o); println(o); let d = new { ? }; c(d); println(d); c(1); c([1]); c("s"); }',
+ 'fn c(v: any) { try { let x: str = v; println("ok", x); } catch e { println(e.message); }; try { let y: float = v; println("ok", y); } catch e { println(e.message); }; try { let z: bool = v; println("ok", z); } catch e { println(e.message); }; try { let r: range = v; println("ok", r); } catch e { println(e.message); }; } fn main() { c("s"); c(1.5); c(true); c(1..=2); c(1); }',
+ # values out of any-objects (heterogeneous data) validated by annotated lets; failures deep inside a structure
+ 'fn main() { let o = new { ? }; o.set("n", 1); o.set("s", "txt"); o.set("l", [1, 2]); o.set("f", 2.5); let n: int = o.get("n").unwrap(); let s: str = o.get("s").unwrap(); let l: [int] = o.get("l").unwrap(); println(n + 1, s + "!", l); try { let f: [float] = o.get("l").unwrap(); println(f); } catch e { println(e.message); } try { let g: int = o.get("f").unwrap(); println(g); } catch e { println(e.message); } println((o.get("f").unwrap() as int) + n); }',
+ 'fn main() { let o = new { ? }; o.set("k", 1); let q: ?int = o.get("k"); let m: ?int = o.get("zz"); println(q, m, q.unwrap() + 1, m.is_none()); try { let r: ?str = o.get("k"); println(r); } catch e { println(e.message, e.line, e.column); } }',
+ # --- globals with run-time validation (`none` is a `?any`)
+ 'let gn: ?int = none; let gl: [?int] = [none, none]; let go: { a: ?str } = new { a: none }; fn main() { println(gn, gl, go); gn = ?3; gl.push(?1); go.a = ?"x"; println(gn, gl, go); }',
+ # --- string members
+ 'fn main() { let s = "Hello, World"; println(s.to_upper(), s.to_lower(), s.replace("l", "L"), s.replace("", "-"), s.replace("o", ""), s.replace("xyz", "!"), s.replace("Hello", s), "aaa".replace("aa", "b"), "".replace("", "x"), "abc".replace("abc", "")); }',
+ 'fn main() { let s = "a,b,,c"; println(s.split(","), s.split(""), s.split(",,"), s.split("x"), "".split(","), "".split(""), ",".split(","), "abab".split("ab"), s.split(",").len(), s.split(",")[2] == ""); let parts = "k=v".split("="); println(parts[0], parts[1]); }',
+ 'fn main() { println("abc".substring(2), "abc".substring(0), "héllo".substring(2), "héllo".len()); try { println("abc".substring(3)); } catch e { println(e.message); } try { println("abc".substring(-1)); } catch e { println(e.message); } try { println("".substring(0)); } catch e { println(e.message); } }',
+ 'fn main() { println("ab".repeat(3), "ab".repeat(0), "".repeat(5) == "", "x".repeat(1)); try { println("abc".repeat(-1)); } catch e { println(e.message, e.line > 0); } try { println("abc".repeat(9223372036854775807)); } catch e { println(e.message); } try { println("ab".repeat(4611686018427387904)); } catch e { println(e.message); } println("".repeat(9223372036854775807) == ""); }',
+ 'fn main() { let s = "Mixed Case 123 _-!"; println(s.to_upper(), s.to_lower(), s.to_upper().to_lower() == s.to_lower(), s.contains("Case"), s.contains(""), s.contains("case"), s.starts_with("Mixed"), s.starts_with(""), s.starts_with("mixed"), s.len()); }',
+ 'fn p(s: str) { try { println(s, "->", s.parse_int()); } catch e { println(s, "!", e.message); }; } fn main() { p("42"); p("-42"); p("+7"); p("007"); p(""); p("-"); p("+"); p("12a"); p("a12"); p(" 1"); p("1 "); p("1_000"); p("0x1F"); p("9223372036854775807"); p("9223372036854775808"); p("-9223372036854775808"); p("-9223372036854775809"); p("99999999999999999999"); p("99999999999999999999x"); p("18446744073709551616"); p("1.5"); p("1e3"); p("--1"); p("it is"); p("a/b"); }',
+ 'fn q(s: str) { try { println(s, "->", s.parse_bool()); } catch e { println(s, "!", e.message); }; } fn main() { q("true"); q("false"); q("True"); q("FALSE"); q("1"); q("0"); q("t"); q("F"); q(""); q("yes"); q("tRUE"); q(" true"); q("2"); }',
+ 'fn p(s: str) { try { println(s, "->", s.parse_float()); } catch e { println(s, "!", e.message); }; } fn main() { p("1.5"); p("-2.25"); p("+0.125"); p("010"); p("3"); p("-0"); p("1000000"); p("65535.0009765625"); p("0.5"); p("abc"); p(""); p("x1"); p(" 1"); p("$5"); p("1024.0"); }',
+ 'fn main() { let t = 0; for w in "10 20 x 30 -5".split(" ") { try { t += w.parse_int(); } catch e { println("skip", w, e.message); } } println(t); let fs = "0.5;1.25;2".split(";"); let sum = 0.0; for f in fs { sum += f.parse_float(); } println(sum, sum.is_int(), sum as int); }',
+ # --- list sort / join / to_string / contains / concat
+ 'fn main() { let l = [3, -1, 2, 9223372036854775807, -9223372036854775807, 2, 0]; l.sort(); println(l); let s = ["b", "a", "B", "", "ab", "a"]; s.sort(); println(s, s.join("")); let f = [2.5, -1.0, 2.5, 0.0, -0.0, 1000000.0]; f.sort(); println(f); let e: [int] = []; e.sort(); println(e, e.join(","), [1].join(",")); }',
+ 'fn main() { let l = [[2, 1], [0]]; l[0].sort(); println(l, l.to_string(), l.contains([0]), l.contains([1, 2]), l.contains([2, 1])); let a = ["x"]; a.concat(["y", "z"]); let em: [str] = []; a.concat(em); println(a, a.len(), a.join(", "), a.to_string().len()); let o = [?1, ?3]; println(o.contains(?3), o.contains(?2), o.join("/")); }',
+ # --- ranges, ints
+ 'fn main() { let r = 2..7; println(r.start, r.end, r.rev(), r.diff(), r.to_string(), r.rev().to_string(), (5..=1).diff(), (5..=1).to_string(), (-3..3).diff(), r.rev().rev() == r, (1..2) == (1..=2), 10.to_range(), (-2).to_range().diff(), 255.to_string() + "", (-0).to_string()); let t = 0; for i in 3.to_range() { t += i; } println(t); }',
+ # --- options
+ 'fn main() { let a: ?int = ?3; let b: ?int = none; println(a.is_some(), a.is_none(), b.is_some(), b.is_none(), a.unwrap(), a.unwrap_or(9), b.unwrap_or(9), a.expect("no"), a.to_string(), b.to_string(), (?[1, 2]).to_string(), (??1).to_string()); try { println(b.unwrap()); } catch e { println(e.message, e.line, e.column); } println(b.expect("expected a value")); }',
+ # --- any-objects: get / set / keys / get_type / to_string; missing keys; self containment
+ 'fn main() { let o = new { ? }; o.set("i", 1); o.set("f", 1.5); o.set("b", true); o.set("s", "x"); o.set("l", [1]); o.set("o", new { a: 1 }); o.set("d", new { ? }); o.set("n", ?1); o.set("r", 1..2); for k in o.keys() { println(k, o.get_type(k)); } println(o.to_string() == o.to_string(), o.get("i"), o.get("none")); println(o.get_type("missing")); }',
+ 'fn main() { let o = new { ? }; let p = new { ? }; p.set("o", o); try { o.set("p", p); } catch e { println(e.message); } try { o.set("l", [?p]); } catch e { println(e.message); } try { o.set("me", o); } catch e { println(e.message, e.line, e.column); } o.set("ok", [p.keys()]); println(o, p); let t = new { inner: p }; try { o.set("t", t); } catch e { println("t", e.message); } println(o.keys()); }',
+ 'fn main() { let o = new { a: 1, b: 2 }; let k = "a"; let a: int = o[k]; let b: int = o["b"]; println(a, b); let d = new { ? }; d.set("x", 5); let x: int = d["x"]; println(x); k = "zz"; let z: int = d[k]; println(z); }',
+ 'fn main() { let o = new { a: 1, b: 2 }; let k = "c"; println(o.keys()); let c: int = o[k]; println(c); }',
+ # --- conversions inside larger programs
+ 'fn avg(l: [int]) -> float { let s = 0; for x in l { s += x; } (s as float) / (l.len() as float) } fn main() { println(avg([1, 2, 3, 4]), avg([10]), avg([1, 2]) ** 2.0, (avg([7, 8]) * 2.0) as int, avg([1, 2]).round(), avg([-1, -2]).round(), avg([-1, -2]).trunc()); }',
+ 'fn parse(line: str) -> { ? } { let o = new { ? }; for kv in line.split(";") { let p = kv.split("="); if p.len() == 2 { o.set(p[0].to_lower(), p[1]); }; } o } fn main() { let o = parse("A=1;b=two;C=3.5;bad;=e"); println(o.keys(), o); let a: str = o.get("a").unwrap(); println(a.parse_int() + 1); let c: str = o.get("c").unwrap(); println(c.parse_float() * 2.0); try { let n: int = o.get("b").unwrap(); println(n); } catch e { println(e.message); } }',
     ]
 
 
